@@ -4329,3 +4329,24 @@ CLI_ANALYZE = dict(
                    ("json.dump(__o, f, indent=4)", "written'", "{state} ++ [AnSummary {o} f']", {"o": "(an_summary F)"})],
 )
 ALL += [CLI_ANALYZE]
+# ---- gap review G7.2: calculate_distance_matrix.get_args (the one function of C07's path that was not translated) and
+# calculate_distance_matrix.main once more as a whole command (get_args() = the translated get_args on the raw namespace,
+# args.metric_cls(**args.metric_params) = `construct` on the two attributes get_args() stored).  Output file of its own
+# (failure isolation); vocabulary: end of Model/Cli.v (cd_ns); proofs: Proofs/C07SourceArgs.v.
+_CD_NS = "(cd_ns Cls F O)"
+_CD_NS_FIELDS = _ns_fields(_CD_NS, {
+    "distance_metric": ("str", "cd_distance_metric {obj}", _NOSET),
+    "distance_metric_param": ("opt " + _KD_SS, "cd_distance_metric_param {obj}", _NOSET),
+    "metric_cls": ("opt Cls", "cd_metric_cls {obj}", "cd_set_metric_cls {obj} {val}"),
+    "metric_params": (_KD_SV, "cd_metric_params {obj}", "cd_set_metric_params {obj} {val}")})
+_GA_CD = dict(_GA, out="SrcCliArgsDist.v", imports=_NS_IMPORTS + " Generated.SrcCliArgs")
+ARGS_GET_ARGS_CD = dict(
+    _GA_CD, file="src/batchie/cli/calculate_distance_matrix.py", name="src_cd_get_args", params=_GA_PARAMS + [("raw", _CD_NS)], returns=_CD_NS,
+    vars={"parser": "handle", "args": _CD_NS, "required_args": _KD_SA}, fields=_CD_NS_FIELDS,
+    prims=_ga_prims(_CD_NS) + [("DistanceMetric", "BDistanceMetric", "base_class")], kwcalls=_GET_CLASS)
+ARGS_CMD_CD = _cmd(CLI_DISTANCE_MATRIX, _CD_NS, "cd", "src_cli_calculate_distance_matrix_cmd", "src_cd_get_args",
+                   [("construct", _CONSTRUCT_T + "Me")], _CD_NS_FIELDS, ["args.metric_cls(**args.metric_params)"],
+                   [_construct("construct", "Me")])
+ARGS_CMD_CD["out"] = "SrcCliArgsDist.v"
+ARGS_CMD_CD["imports"] = _NS_IMPORTS + " Generated.SrcCliArgs"
+ALL += [ARGS_GET_ARGS_CD, ARGS_CMD_CD]
